@@ -447,6 +447,12 @@ class Fault:
             return KeyboardInterrupt()
         if self.kind == "sysexit":
             return SystemExit(1)
+        if self.kind == "clienterror":
+            # what S3StorageBackend lets through once its retries are exhausted: not an OSError
+            import botocore.exceptions
+
+            return botocore.exceptions.ClientError({"Error": {"Code": "InternalError", "Message": f"injected fault at {what}"},
+                                                    "ResponseMetadata": {"HTTPStatusCode": 500}}, "Injected")
         return OSError(f"injected fault at {what}")
 
     def __repr__(self) -> str:
